@@ -275,9 +275,64 @@ def h_formula(ctx, shape):
     ctx.true('no other symbols', len(res) == len(done))
 
 
+def h_ring(ctx, spaced):
+    """pmutt.io.ring.read_reactions: every line holding the reaction delimiter is one reaction (with or without a transition
+    state, with symbolic coefficient digits), every other line is skipped, order kept"""
+    import os
+    from pmutt.io.ring import read_reactions
+
+    class Sp:
+        def __init__(self, name):
+            self.name = name
+            self.elements = None
+    names = ['A', 'B', 'C', 'AB_TS', 'D2']
+    species = {n: Sp(n) for n in names}
+    d1 = ctx.char('coef0', [(49, 57)])
+    d2 = ctx.char('coef1', [(50, 57)])
+    arrow = [' ', '>', '>', ' '] if spaced else ['>', '>']
+    dot = [' ', '.', ' '] if spaced else ['.']
+    lines = [list('// generated by RING'),
+             [d1] + list('A') + dot + list('B') + arrow + list('C'),
+             list(''),
+             list('A') + dot + list('B') + arrow + list('AB_TS') + arrow + [d2] + list('D2'),
+             list('species without reaction'),
+             list('C') + arrow + list('A')]
+    cells = []
+    for ln in lines:
+        cells += ln + ['\n']
+    text = ctx.string(cells)
+    if ctx.is_sym():
+        from symx import symstr
+        symstr.VFS['mem://ring.txt'] = text
+        rxns = read_reactions('mem://ring.txt', species=species)
+    else:
+        import tempfile
+        fd, path = tempfile.mkstemp(suffix='.txt')
+        os.close(fd)
+        try:
+            with open(path, 'w') as f:
+                f.write(text)
+            rxns = read_reactions(path, species=species)
+        finally:
+            os.unlink(path)
+    rx = list(rxns.reactions)
+    ctx.true('one reaction per line holding the delimiter, the others skipped', len(rx) == 3)
+    if len(rx) != 3:
+        return
+    ctx.true('reaction 0: species', [s.name for s in rx[0].reactants] == ['A', 'B'] and [s.name for s in rx[0].products] == ['C'] and rx[0].transition_state is None)
+    ctx.true('reaction 0: coefficient read from its digit', rx[0].reactants_stoich[0] == ctx.code(d1) - 48)
+    ctx.true('reaction 1 keeps its transition state', rx[1].transition_state is not None and [s.name for s in rx[1].transition_state] == ['AB_TS']
+             and [s.name for s in rx[1].products] == ['D2'])
+    ctx.true('reaction 1: product coefficient read from its digit', rx[1].products_stoich[0] == ctx.code(d2) - 48)
+    ctx.true('reaction 2: species', [s.name for s in rx[2].reactants] == ['C'] and [s.name for s in rx[2].products] == ['A'])
+    ctx.true('the species objects are the ones supplied', rx[0].reactants[0] is species['A'] and rx[1].products[0] is species['D2'])
+
+
 def groups(tier):
     th = tier == 'thorough'
     g = []
+    for spaced in (False, True):
+        g.append(dict(name='ring-reader/spaced=%s' % spaced, harness=h_ring, params=dict(spaced=spaced), no_validate=True))
     for nsp in ((1, 2, 3) if th else (1, 2)):
         for fmt in ('.2f', '.3f', '.1f'):
             for space in (False, True):
